@@ -1,6 +1,6 @@
 """C15 — a ModelProto and an IR model are treated alike."""
 # the fallback path of convert_version (initializer payloads must survive it) has its contract in c10_version
-MODULES = ["contracts.c15_wrappers", "contracts.c10_version:requires_inline", "contracts.c10_version:call_onnx_api"]
+MODULES = ["contracts.c15_wrappers", "contracts.c10_version:requires_inline", "contracts.c10_version:call_onnx_api", "contracts.c04_process:move_initializers"]
 
 
 def INCLUDE(name):
@@ -111,7 +111,52 @@ sys.exit(bad)
 '''
 
 
+RENAMED_INITIALIZER = r"""
+import sys
+import numpy as np
+import onnx
+from onnx import helper, TensorProto, numpy_helper
+import onnxruntime as ort
+import onnxscript.optimizer
+
+
+def run(model, x):
+    so = ort.SessionOptions()
+    so.graph_optimization_level = ort.GraphOptimizationLevel.ORT_DISABLE_ALL
+    so.log_severity_level = 3
+    return ort.InferenceSession(model.SerializeToString(), so, providers=['CPUExecutionProvider']).run(None, {'x': x})[0]
+
+
+# If(const true) whose then-branch owns an initializer 'w'; the main graph has another initializer 'w': inlining the branch moves the
+# branch initializer to the main graph under the name 'w_1' by renaming the ir.Value in place
+then_g = helper.make_graph([helper.make_node("Add", ["x", "w"], ["t"])], "then", [], [helper.make_tensor_value_info("t", TensorProto.FLOAT, [2])],
+                           initializer=[numpy_helper.from_array(np.array([1, 2], np.float32), "w")])
+else_g = helper.make_graph([helper.make_node("Identity", ["x"], ["e"])], "else", [], [helper.make_tensor_value_info("e", TensorProto.FLOAT, [2])])
+g = helper.make_graph([helper.make_node("Constant", [], ["c"], value=numpy_helper.from_array(np.array(True), "c")),
+                       helper.make_node("If", ["c"], ["y0"], then_branch=then_g, else_branch=else_g),
+                       helper.make_node("Mul", ["y0", "w"], ["y"])], "g",
+                      [helper.make_tensor_value_info("x", TensorProto.FLOAT, [2])], [helper.make_tensor_value_info("y", TensorProto.FLOAT, [2])],
+                      initializer=[numpy_helper.from_array(np.array([3, 4], np.float32), "w")])
+m = helper.make_model(g, opset_imports=[helper.make_opsetid("", 18)], ir_version=9)
+onnx.checker.check_model(m)
+x = np.array([10, 20], np.float32)
+before_bytes = m.SerializeToString()
+before_out = run(m, x)
+onnxscript.optimizer.optimize(m)          # functional variant: returns a new proto
+bad = 0
+if m.SerializeToString() != before_bytes:
+    names = [[i.name for i in a.g.initializer] for a in m.graph.node[1].attribute]
+    after_out = run(m, x)
+    print(f"optimize(ModelProto) wrote its ARGUMENT: the then-branch initializer 'w' is now named {names}; the argument computed "
+          f"{before_out.tolist()} before the call and computes {after_out.tolist()} after it")
+    bad = 1
+sys.exit(bad)
+"""
+
+
 def replay(ob):
+    if "renamed_initializer" in ob["name"]:
+        return RENAMED_INITIALIZER
     if "replace_functions" in ob["name"]:
         return REPLACE_FUNCTIONS
     if ob["name"].startswith("C10."):
